@@ -489,6 +489,19 @@ func parseLiteral(literal []byte) (byte, any, error) {
 			case '\\':
 				i++
 				c = literal[i]
+				// the scanner lets the JSON-style letter escapes through: they stand for control characters
+				switch c {
+				case 'n':
+					c = '\n'
+				case 't':
+					c = '\t'
+				case 'r':
+					c = '\r'
+				case 'b':
+					c = '\b'
+				case 'f':
+					c = '\f'
+				}
 			}
 			sb.WriteByte(c)
 		}
@@ -562,10 +575,64 @@ func parseLiteral(literal []byte) (byte, any, error) {
 				return TagDouble, num, err
 			}
 		} else if unqstr {
+			if num, suffix, ok := decimalForm(literal); ok {
+				// ".5", "-.5e1", "1e3f": decimals the loop above does not recognise
+				if suffix == 'f' || suffix == 'F' {
+					v, err := strconv.ParseFloat(string(num), 32)
+					return TagFloat, float32(v), err
+				}
+				v, err := strconv.ParseFloat(string(num), 64)
+				return TagDouble, v, err
+			}
 			return TagString, string(literal), nil
 		}
 	}
 	return 0, nil, &SyntaxError{Message: "invalid literal " + strconv.Quote(string(literal))}
+}
+
+// decimalForm reports whether an unquoted literal is a decimal number in the forms
+// [+-]? (digits [.] | digits? . digits) ([eE] [+-]? digits)? [fFdD]? - without a suffix the point is
+// required (1e3 is a string, 1e3f and 1.e3 are numbers, as in vanilla). It returns the number without suffix.
+func decimalForm(lit []byte) (num []byte, suffix byte, ok bool) {
+	i, n := 0, len(lit)
+	if n > 0 && isFloatType(lit[n-1]) {
+		suffix = lit[n-1]
+		n--
+	}
+	if i < n && (lit[i] == '+' || lit[i] == '-') {
+		i++
+	}
+	digits := func() int {
+		k := 0
+		for i < n && lit[i] >= '0' && lit[i] <= '9' {
+			i++
+			k++
+		}
+		return k
+	}
+	intDigits := digits()
+	point, fracDigits := false, 0
+	if i < n && lit[i] == '.' {
+		point = true
+		i++
+		fracDigits = digits()
+	}
+	if intDigits+fracDigits == 0 {
+		return nil, 0, false
+	}
+	if i < n && (lit[i] == 'e' || lit[i] == 'E') {
+		i++
+		if i < n && (lit[i] == '+' || lit[i] == '-') {
+			i++
+		}
+		if digits() == 0 {
+			return nil, 0, false
+		}
+	}
+	if i != n || (!point && suffix == 0) {
+		return nil, 0, false
+	}
+	return lit[:n], suffix, true
 }
 
 func (d *decodeState) error(msg string) *SyntaxError {
